@@ -98,7 +98,7 @@ impl Prop for C07Prop {
                 }
             }
         }
-        let maxlen = if _tier == Tier::Thorough { 6 } else { 4 };
+        let maxlen = if _tier == Tier::Thorough { 7 } else { 5 };
         for (i, p) in gen::all_strings(&[0x00, 0x1b, 0x01, 0x1a, 0x55], maxlen).into_iter().enumerate() {
             let flen = refenc(&p).len();
             let buf = match i % 3 {
